@@ -29,6 +29,7 @@ BLOCK16 = (1, 12, 17, 24, 25, 26)  # CBC ECB CBCS SM4_ECB SM4_CBC CFB
 BLOCK8 = (7, 10)                   # DES 3DES
 HMACS = (1, 2, 3, 4, 5, 7, 48)
 WORK = os.path.join(common.BUILD, "c13")
+USED_SIDS = set()
 TEMPLATES = os.path.join(common.HARNESS, "k1_selftest_cases.txt")
 FIELDS = ("id", "cipher", "dir", "hash", "order", "key", "akey", "iv", "aiv", "aad", "msg", "coff", "clen",
           "hoff", "hlen", "tag", "inplace", "salign", "dalign")
@@ -489,6 +490,8 @@ def run_all(k13, slots, scheds, variants, tag="main"):
 def analyse(results, scheds):
     bysid = {s.sid: s for s in scheds}
     hits, dirty, used, sched_rows, crashes, totals = [], [], set(), [], [], collections.Counter()
+    global USED_SIDS
+    USED_SIDS = set()
     for r in results:
         ended = set()
         started = None
@@ -505,6 +508,7 @@ def analyse(results, scheds):
             elif line.startswith("USED "):
                 d = kv_of(line)
                 used.add((arch_class(d["var"]), d["ooo"], d["field"]))
+                USED_SIDS.add((d["sid"], d["var"], d["ooo"], d["field"]))
             elif line.startswith("SCHED "):
                 d = kv_of(line)
                 sched_rows.append(d)
@@ -660,7 +664,8 @@ def main(tier, seed):
             dirty_claimed[key] += 1
             s = bysid.get(d["sid"])
             # prefer the schedule that produced the residue (not one that merely inherited it), small ones first
-            rank = (int(d["first_call"]) <= 1, len(s.items) if s else 999)
+            rank = ((d["sid"], d["var"], d["ooo"], d["field"]) not in USED_SIDS, int(d.get("lane", -1)) < 0,
+                    len(s.items) if s else 999)
             if key not in cand or rank < cand[key][0]:
                 cand[key] = (rank, d, s)
         else:
